@@ -37,6 +37,18 @@ def analyse(fns, tag="bc", shards=8, timeout=3000, max_code=None):
     import threading
     if max_code is not None:
         fns = [f for f in fns if len(f["code"]) <= max_code]
+    # identical functions (same code, constant kinds, arity, captured count) need one analysis; the result is shared
+    groups = {}
+    for f in fns:
+        key = json.dumps([f["code"], f["ckind"], f["cupv"], f["arity"], f["upv"]])
+        groups.setdefault(key, []).append(f["id"])
+    uniq = {}
+    for f in fns:
+        key = json.dumps([f["code"], f["ckind"], f["cupv"], f["arity"], f["upv"]])
+        if groups[key][0] == f["id"]:
+            uniq[f["id"]] = groups[key]
+    all_fns = fns
+    fns = [f for f in fns if f["id"] in uniq]
     os.makedirs(os.path.join(vlib.WORK, "bytecode"), exist_ok=True)
     # balance shards by code size
     fns = sorted(fns, key=lambda f: -len(f["code"]))
@@ -80,4 +92,11 @@ def analyse(fns, tag="bc", shards=8, timeout=3000, max_code=None):
         t.join()
     if errors:
         raise vlib.ToolError("Bytecode.tla run failed:\n" + "\n".join(errors)[:3000])
-    return results, totals[0], totals[1]
+    expanded = []
+    for r in results:
+        for other in uniq.get(r["id"], [r["id"]]):
+            rr = dict(r)
+            rr["id"] = other
+            rr["problems"] = [dict(p_, fn=other) for p_ in r["problems"]]
+            expanded.append(rr)
+    return expanded, totals[0], totals[1]
